@@ -136,6 +136,10 @@ func (h *vHub) postApi(b int, room string, body interface{}) {
 // goroutines; only the tables at rest are reported for it (whichever order the server took them in).
 func (h *vHub) exec(op string) string {
 	par := strings.HasPrefix(op, "par ")
+	if strings.HasPrefix(op, "joinrace ") {
+		h.issue(op)
+		return h.collect(true)
+	}
 	if par {
 		var wg sync.WaitGroup
 		subs := strings.Split(strings.TrimPrefix(op, "par "), ";;")
@@ -341,6 +345,43 @@ func (h *vHub) issue(op string) {
 		}
 		h.send(c, map[string]interface{}{"id": h.nextId(), "type": "internal",
 			"internal": map[string]interface{}{"type": "incall", "incall": map[string]interface{}{"incall": atoi(f[2])}}})
+	case "joinrace":
+		// joinrace sN room rsid c2: sN sends a join whose backend reply is held; the session is taken over by
+		// connection c2 and says bye there; then the reply is released.
+		c, _ := h.sessionConn(f[1])
+		c2 := atoi(f[4])
+		if c < 0 {
+			break
+		}
+		hold := make(chan struct{})
+		arrived := make(chan struct{}, 1)
+		h.mu.Lock()
+		h.roomReply = &vRoomReply{kind: "ok"}
+		h.roomHold, h.roomArrived = hold, arrived
+		priv := ""
+		if n, err := strconv.Atoi(f[1][1:]); err == nil {
+			priv = h.privOf[n]
+		}
+		h.mu.Unlock()
+		h.send(c, map[string]interface{}{"id": h.nextId(), "type": "room",
+			"room": map[string]interface{}{"roomid": vDec(f[2]), "sessionid": vDec(f[3])}})
+		select {
+		case <-arrived:
+		case <-time.After(2 * time.Second):
+		}
+		mid := h.nextId()
+		h.send(c2, map[string]interface{}{"id": mid, "type": "hello",
+			"hello": map[string]interface{}{"version": "1.0", "resumeid": priv}})
+		h.waitReply(c2, mid)
+		mid = h.nextId()
+		h.send(c2, map[string]interface{}{"id": mid, "type": "bye", "bye": map[string]interface{}{}})
+		h.waitReply(c2, mid)
+		// give the close a moment, then let the backend answer
+		time.Sleep(time.Duration(h.raceDelayMs) * time.Millisecond)
+		close(hold)
+		h.mu.Lock()
+		h.roomHold, h.roomArrived = nil, nil
+		h.mu.Unlock()
 	case "fed":
 		// the bookkeeping of a join of a federated room (processRoom: h.federatedSessions[session] = true)
 		// without a second hub to federate with: only the table C07 talks about is touched
@@ -1031,10 +1072,29 @@ func (g *vGen) someRoom() string { return g.rooms[g.r.intn(len(g.rooms))] }
 func (g *vGen) someRs() string   { return g.rsids[g.r.intn(len(g.rsids))] }
 
 // opening plays one scripted opening; returns its name (for the case's tags).
-func (g *vGen) opening() string {
+func (g *vGen) opening(kind int) string {
 	r := g.r
 	other := func(b int) int { return (b + 1 + r.intn(g.nb-1)) % g.nb }
-	switch r.intn(9) {
+	switch kind % 10 {
+	case 9:
+		// a session ends (bye on a second connection that took it over) while its own join is still waiting
+		// for the backend; then the held reply arrives: the join must not complete for a session that is gone
+		b := r.intn(g.nb)
+		a := g.opHello(1, b, "c", g.someUser(), 0, 0)
+		o := g.opHello(2, b, "c", g.someUser(), 0, 0)
+		room := g.someRoom()
+		if r.chance(1, 2) {
+			g.opJoin(o, room, g.someRs(), "ok")
+		}
+		if r.chance(1, 3) {
+			g.opJoin(a, g.someRoom(), g.someRs(), "ok")
+		}
+		g.opConnect(3)
+		g.emit("joinrace s%d %s %s 3", a, vEnc(room), vEnc(g.someRs()))
+		g.closeSess(a)
+		g.connOpen[1], g.connOpen[3] = false, false
+		delete(g.connSess, 1)
+		return "session-ends-while-joining"
 	case 8:
 		// a session on the list of federated sessions ends (bye, expiry, kicked by a reconnect with its room
 		// session id) or goes on to an ordinary room
@@ -1075,7 +1135,16 @@ func (g *vGen) opening() string {
 		v := g.opVadd(i, room, "v0", g.someUser(), ic, 1)
 		o := g.opHello(3, other(bI), "c", g.someUser(), 0, 0)
 		g.opJoin(o, room, g.someRs(), "ok")
-		for k := 2 + r.intn(5); k > 0; k-- {
+		// the probes the opening is for: the foreign session addresses the virtual session, its internal client
+		// and the ordinary member by session id, with a message and a control message
+		for _, to := range []int{v, i, u} {
+			g.emit("msg s%d m s s%d %s", o, to, vEnc(g.someData()))
+			if r.chance(1, 2) {
+				g.emit("msg s%d c s s%d %s", o, to, vEnc(g.someData()))
+			}
+		}
+		g.emit("msg s%d %s s s%d %s", u, g.someKind(), v, vEnc(g.someData()))
+		for k := r.intn(4); k > 0; k-- {
 			from := []int{o, o, u, i}[r.intn(4)]
 			to := []int{v, v, i, u, o}[r.intn(5)]
 			g.opMsgTo(from, to)
@@ -1312,7 +1381,7 @@ func vHubGen(e *vEnv, r *vRand) []vCase {
 		}
 		var tags []string
 		if i%2 == 1 {
-			tags = append(tags, "opening:"+g.opening())
+			tags = append(tags, "opening:"+g.opening(i/2))
 		} else {
 			if rr.chance(1, 4) {
 				g.emit("limit %d %d", rr.intn(g.nb), 1+rr.intn(2))
